@@ -18,6 +18,7 @@ type member struct {
 }
 
 type enumScen struct {
+	Kind    string   `json:"kind"`
 	Tr      []string `json:"tr"`
 	Same    bool     `json:"same"`
 	Src     []member `json:"src"`
@@ -33,11 +34,25 @@ type enumScen struct {
 
 var p2ident = regexp.MustCompile(`\bp2([A-Z.])`)
 
-func enumDecl(pkg string, ms []member) string {
+func enumLit(kind string, v int) string {
+	switch kind {
+	case "float":
+		return fmt.Sprintf("%d.5", v)
+	case "string":
+		return fmt.Sprintf("%q", string(rune('x'+v%3))+fmt.Sprint(v/3))
+	}
+	return fmt.Sprint(v)
+}
+
+func enumDecl(pkg, kind string, ms []member) string {
 	var b strings.Builder
-	b.WriteString("package " + pkg + "\n\ntype E int\n\nconst (\n")
+	under := map[string]string{"float": "float64", "string": "string"}[kind]
+	if under == "" {
+		under = "int"
+	}
+	b.WriteString("package " + pkg + "\n\ntype E " + under + "\n\nconst (\n")
 	for _, m := range ms {
-		fmt.Fprintf(&b, "\t%s E = %d\n", m.N, m.V)
+		fmt.Fprintf(&b, "\t%s E = %s\n", m.N, enumLit(kind, m.V))
 	}
 	b.WriteString(")\n")
 	return b.String()
@@ -63,15 +78,15 @@ func cmdEnum(args []string) {
 	b.WriteGoMod()
 	files := map[string]string{}
 	pkgOf := map[string]string{}
-	enumPkg := func(prefix string, ms []member) string {
+	enumPkg := func(prefix, kind string, ms []member) string {
 		key, _ := json.Marshal(ms)
-		k := prefix + string(key)
+		k := prefix + kind + string(key)
 		if p, ok := pkgOf[k]; ok {
 			return p
 		}
 		p := fmt.Sprintf("%s%d", prefix, len(pkgOf))
 		pkgOf[k] = p
-		files[p+"/e.go"] = enumDecl(p, ms)
+		files[p+"/e.go"] = enumDecl(p, kind, ms)
 		return p
 	}
 	var src strings.Builder
@@ -79,7 +94,7 @@ func cmdEnum(args []string) {
 	decl := make([]string, len(scens))
 	var typeDecls strings.Builder
 	for i, s := range scens {
-		sp, tp := enumPkg("es", s.Src), enumPkg("et", s.Tgt)
+		sp, tp := enumPkg("es", s.Kind, s.Src), enumPkg("et", s.Kind, s.Tgt)
 		if s.Same {
 			tp = sp
 		}
@@ -116,7 +131,19 @@ func cmdEnum(args []string) {
 	}
 	// the same converters once more in reverse order (package p2, output gen2): the outcome must not depend on the order
 	var rev strings.Builder
+	// ... with the converters that switch enum handling off first, then the others in reverse
+	order := []int{}
+	for i := range scens {
+		if !scens[i].EnumOn {
+			order = append(order, i)
+		}
+	}
 	for i := len(scens) - 1; i >= 0; i-- {
+		if scens[i].EnumOn {
+			order = append(order, i)
+		}
+	}
+	for _, i := range order {
 		rev.WriteString(strings.ReplaceAll(strings.ReplaceAll(decl[i], "../gen/c", "../gen2/c"), b.Mod+"/gen\n", b.Mod+"/gen2\n"))
 	}
 	head := "package p\n\nimport (\n"
@@ -128,8 +155,12 @@ func cmdEnum(args []string) {
 	files["p2/in.go"] = strings.Replace(head, "package p\n", "package p2\n", 1) + typeDecls.String() + rev.String()
 	hx.WriteTree(*work, files)
 	t0 := time.Now()
-	all, err := hx.GenerateEach(hx.GenConfig(*work, []string{"./p", "./p2"}, nil))
+	// two separate loads: each starts from fresh type objects, so a leak through process-wide state shows as order dependence
+	all, err := hx.GenerateEach(hx.GenConfig(*work, []string{"./p"}, nil))
 	hx.Must(err)
+	all2, err := hx.GenerateEach(hx.GenConfig(*work, []string{"./p2"}, nil))
+	hx.Must(err)
+	all = append(all, all2...)
 	b.Timing["gen"] = time.Since(t0)
 	if len(all) != 2*len(scens) {
 		panic("result count mismatch")
@@ -169,7 +200,7 @@ func cmdEnum(args []string) {
 			b.WriteOutputs(i, o.Files)
 			b.Reg[i] = fmt.Sprintf("reflect.ValueOf((&gen.C%dImpl{}).Conv)", i)
 			for _, x := range scens[i].Inputs {
-				v := map[string]any{"k": "b", "tok": fmt.Sprintf("#%d", x)}
+				v := map[string]any{"k": "b", "tok": "#" + strings.Trim(enumLit(scens[i].Kind, x), "\"")}
 				switch scens[i].Pos {
 				case "field":
 					v = map[string]any{"k": "st", "fs": []any{v}}
@@ -199,7 +230,7 @@ func cmdEnum(args []string) {
 		if tr == nil {
 			tr = []string{}
 		}
-		return map[string]any{"id": i, "tr": tr, "same": s.Same, "src": s.Src, "tgt": s.Tgt, "map": m, "unknown": s.Unknown, "rootErr": s.RootErr, "pos": s.Pos, "enumOn": s.EnumOn}
+		return map[string]any{"id": i, "kind": s.Kind, "tr": tr, "same": s.Same, "src": s.Src, "tgt": s.Tgt, "map": m, "unknown": s.Unknown, "rootErr": s.RootErr, "pos": s.Pos, "enumOn": s.EnumOn}
 	}
 	nOK := 0
 	for i, o := range outs {
@@ -245,12 +276,24 @@ func cmdEnum(args []string) {
 			case "elem":
 				out = out["es"].([]any)[0].(map[string]any)
 			}
-			var v int
+			v := -1
 			tok := out["tok"].(string)
-			if tok == "z" {
-				v = 0
-			} else {
-				fmt.Sscanf(tok, "#%d", &v)
+			kind := scens[i].Kind
+			switch {
+			case kind == "int" || kind == "":
+				if tok == "z" {
+					v = 0
+				} else {
+					fmt.Sscanf(tok, "#%d", &v)
+				}
+			case tok == "z" || tok == "#" || tok == "#0":
+				v = -2 // the zero value 0.0 / ""
+			default:
+				for cand := 0; cand < 10; cand++ {
+					if tok == "#"+strings.Trim(enumLit(kind, cand), "\"") {
+						v = cand
+					}
+				}
 			}
 			r["res"] = map[string]any{"k": "val", "v": v}
 		}
